@@ -74,9 +74,9 @@ MATH_WEIGHT = {"suite": "math", "trace": "Trace_Math", "cfg": "Trace_Math.cfg", 
                "quick": {"runs": 10, "ops": 2000}, "thorough": {"runs": 200, "ops": 2000}, "procs": 4}
 
 MATH_ST2 = {"suite": "math", "trace": "Trace_Math", "cfg": "Trace_Math.cfg", "extra": {"kind": "st2"},
-            "quick": {"runs": 16, "ops": 240}, "thorough": {"runs": 320, "ops": 600}, "procs": 8}
+            "quick": {"runs": 16, "ops": 240}, "thorough": {"runs": 160, "ops": 600}, "procs": 8}
 MATH_ST3 = {"suite": "math", "trace": "Trace_Math", "cfg": "Trace_Math.cfg", "extra": {"kind": "st3"},
-            "quick": {"runs": 16, "ops": 300}, "thorough": {"runs": 320, "ops": 600}, "procs": 8}
+            "quick": {"runs": 16, "ops": 300}, "thorough": {"runs": 160, "ops": 600}, "procs": 8}
 TRIO_SUITE = {"suite": "trio", "trace": "Trace_Trio", "cfg": "Trace_Trio.cfg",
               "quick": {"runs": 32, "ops": 120}, "thorough": {"runs": 800, "ops": 200}, "procs": 8}
 MC_STABLE = {"module": "MC_Stable", "quick": "MC_Stable_quick.cfg", "thorough": "MC_Stable.cfg", "workers": 4,
